@@ -69,11 +69,12 @@ def recoverEng (s : Eng) : Eng :=
       | .ok s2 => { s2 with locks := s2.locks.unlockAll i }
       | .error _ => { s1 with locks := s1.locks.unlockAll i }
 
-/-- `processLTXStreamFrame`: create the database if needed, skip a file this node created itself,
-    otherwise the lock bracket / position check / write / apply of `receiveLTX` -/
+/-- `processLTXStreamFrame`: create the database if needed, skip a file this node created itself
+    and still has (its position covers it), otherwise the lock bracket / position check / write /
+    apply of `receiveLTX` -/
 def deliver (s : Eng) (self : Nat) (f : LTXFile) : Eng × Bool :=
   let s := if s.hasDB then s else { s with hasDB := true, dbFile := some ByteArray.empty }
-  if f.nodeID = self ∧ self ≠ 0 then (s, true) else
+  if f.nodeID = self ∧ self ≠ 0 ∧ s.posTxid ≥ f.maxTxid then (s, true) else
   match receiveLTX s f with
   | .ok s' => (s', true)
   | .error (s', _) => (s', false)
